@@ -27,7 +27,7 @@ CTagsRS == {"returns", "since"}
 CTagsR == {"returns"}
 CTagsS == {"since"}
 CNoFaults == {}
-CKnown == {"writer_action_identifier", "validate_position_lost_on_continuation"}
+CKnown == {}        \* both deviations are repaired (855d795, 38eeb2b): the exported cases follow the current code
 CAllFaults == {"unbal", "dbl", "empty", "stray", "kv", "unknown", "nocolon", "dupparam", "duptag", "returns2",
                "paramlate", "pre", "codebefore", "codeafter", "oneline", "noident", "attrs", "opentext", "depann", "deptag"}
 
